@@ -338,9 +338,18 @@ struct Harness {
 	}
 };
 
+bool gThorough = false;
+
 std::vector<std::vector<uint8_t>> sources()
 {
 	std::vector<std::vector<uint8_t>> v;
+	if (gThorough) {
+		// every byte string of length <= 3 over the bytes that matter to the typed helpers (size prefixes, signs, NUL), and two longer sources
+		static const uint8_t alpha[] = { 0x00, 0x01, 0x02, 0x7F, 0x80, 0xFF };
+		for (int len = 0; len <= 3; ++len) { int n = 1; for (int i = 0; i < len; ++i) n *= 6; for (int k = 0; k < n; ++k) { std::vector<uint8_t> s; int x = k; for (int i = 0; i < len; ++i) { s.push_back(alpha[x % 6]); x /= 6; } v.push_back(s); } }
+		{ std::vector<uint8_t> s; for (int i = 0; i < 16; ++i) s.push_back(uint8_t(i * 17 + 3)); v.push_back(s); }
+		{ std::vector<uint8_t> s = { 0x0A, 0x00, 0x00, 0x00, 'a', 'b', 'c', 'd', 'e', 'f', 'g', 'h', 'i', 'j', 0x00, 0x03, 0x00, 'x', 'y', 'z' }; v.push_back(s); }
+	}
 	for (int n : { 0, 1, 2, 5, 8 }) { std::vector<uint8_t> s; for (int i = 0; i < n; ++i) s.push_back(uint8_t(i + 1)); v.push_back(s); }
 	v.push_back({ 0x02, 0x00, 0x00, 0x00, 0x41, 0x42, 0x00, 0xFF });
 	v.push_back({ 0xFF, 0xFF, 0xFF, 0xFF, 0x01, 0x00, 0x03, 0x61, 0x62, 0x63 });
@@ -424,6 +433,7 @@ int main(int argc, char** argv)
 {
 	mc::CheckDef def;
 	def.id = "C12";
+	def.init = [](Ctx& c) { gThorough = c.thorough; };
 	def.ncases = [](Ctx&) { return sources().size() * kBackends; };
 	def.run = runCase;
 	def.describe = [](std::size_t i) { return "source " + std::to_string(i / kBackends) + " backend " + std::to_string(i % kBackends); };
